@@ -103,6 +103,7 @@ Event = t.Tuple[str, str, int]  # (kind, name, id)
 #         callbad   the same call carrying an application-defined control whose get_value() raises (a send
 #                   that fails while encoding): whatever it raises, it must leave no trace
 #         recv      one whole PDU            recv2   the same PDU cut in two receive() calls
+#         recvpeer  the same PDU as a conforming peer may encode it: every length in the 5-octet long form
 #         recvpair  two PDUs "A+B" (same id, or "A+B/next" with ids i and i+1) in ONE receive() call
 #         garbage   an undecodable delivery
 
@@ -147,6 +148,7 @@ def events(role: str, kmax: int) -> t.List[Event]:
         for i in (1, 2):
             ev += [("recv2", n, i) for n in RESP_KINDS]
         ev += [("recv2", n, 0) for n in ("Unbind", "Notice")]
+        ev += [("recvpeer", n, 1) for n in RESP_KINDS + ["Unbind"]]
         for a in PAIR_RESP:
             for b in PAIR_RESP:
                 ev.append(("recvpair", f"{a}+{b}", 1))
@@ -164,6 +166,7 @@ def events(role: str, kmax: int) -> t.List[Event]:
             ev += [("recv", n, i) for n in RESP_KINDS]
         for i in (1, 2):
             ev += [("recv2", n, i) for n in REQ_KINDS]
+        ev += [("recvpeer", n, 1) for n in REQ_KINDS + ["Notice"]]
         for a in REQ_KINDS:
             for b in REQ_KINDS:
                 ev.append(("recvpair", f"{a}+{b}", 1))
@@ -172,10 +175,23 @@ def events(role: str, kmax: int) -> t.List[Event]:
     return ev
 
 
+_PEER: t.Dict[t.Tuple[str, int], bytes] = {}
+
+
+def _peer_bytes(name: str, i: int) -> bytes:
+    b = _PEER.get((name, i))
+    if b is None:
+        tree, _end = ber.parse_one(make_msg(name, i).pack(OPT), 0, strict=False)
+        for n in tree.walk():
+            n.lenform = "85"
+        b = _PEER[(name, i)] = ber.encode(tree)
+    return b
+
+
 def event_messages(ev: Event) -> t.List[t.Tuple[str, int]]:
     """The (kind name, id) of every PDU an event delivers, in order."""
     kind, name, i = ev
-    if kind in ("recv", "recv2"):
+    if kind in ("recv", "recv2", "recvpeer"):
         return [(name, i)]
     if kind == "recvpair":
         nxt = name.endswith("/next")
@@ -201,6 +217,8 @@ def apply_event(role: str, s: t.Any, ev: Event) -> t.Any:
         cut = min(3, len(b) - 1)
         first = s.receive(b[:cut])
         return first + s.receive(b[cut:])
+    if kind == "recvpeer":
+        return s.receive(_peer_bytes(name, i))
     if kind == "recvpair":
         return s.receive(b"".join(make_msg(n, j).pack(OPT) for n, j in event_messages(ev)))
     return s.receive(GARBAGE)
@@ -301,7 +319,7 @@ def monitors(role: str, g: Ghost, ev: Event, rec: Rec, viol: t.List[t.Tuple[str,
 
     is_call = kind in ("call", "callbad")
     is_recv = not is_call
-    single = kind in ("recv", "recv2")  # one PDU: every lifecycle clause applies
+    single = kind in ("recv", "recv2", "recvpeer")  # one PDU: every lifecycle clause applies
     msgs = event_messages(ev)
     # (g) only the library's error types (a callbad raises whatever the application's control raised)
     if exc is not None:
